@@ -605,6 +605,27 @@ pub fn run(ctx: &Ctx) -> usize {
 	{
 		violations += 1;
 	}
+	if !ctx.quick() && violations == 0 {
+		let secs = std::env::var("PV_FUZZ_SECS").ok().and_then(|s| s.parse().ok()).unwrap_or(300);
+		// raw bytes: valid files of every regime + fixtures' heads as seeds, and an empty-corpus run
+		let mut seeds: Vec<Vec<u8>> = Vec::new();
+		for (i, v) in [(0u8, 1u8, 0u8), (1, 0, 0), (2, 0, 1), (2, 2, 0), (3, 0, 0), (3, 3, 0), (3, 7, 0), (3, 16, 0)].iter().enumerate() {
+			let mut m = crate::gen::simple_model(*v, &[(0, i % 2 == 0), (1, false)], 2, i as u64, crate::gen::Pattern::Random, (i % 3) as u8, i % 2 == 1);
+			if spec::gte((v.0, v.1), (3, 3)) {
+				m.gecko = Some(crate::model::Gecko { bytes: vec![1u8; 512], actual: 77 });
+			}
+			seeds.push(m.encode());
+		}
+		if rt::run_fuzz(ctx, "read_bytes", secs, 8, 8192, &seeds).is_some() {
+			violations += 1;
+		}
+		if rt::run_fuzz(ctx, "read_bytes", secs / 4, 4, 4096, &[]).is_some() {
+			violations += 1;
+		}
+		if rt::run_fuzz(ctx, "read_struct", secs, 8, 2048, &rt::random_seeds(ctx.seed, 12, 1024)).is_some() {
+			violations += 1;
+		}
+	}
 	let errs: Vec<String> = stats.errors.lock().unwrap().iter().cloned().collect();
 	ctx.put("distinct_error_messages", json!(errs.len()));
 	ctx.put("error_message_samples", json!(errs.iter().take(60).collect::<Vec<_>>()));
